@@ -776,6 +776,21 @@ pub fn sugg_corpus() -> Vec<Program> {
             family: "sugg nested-in-flatten".into(),
         });
     }
+    // P4b/P4c: the same with required members, so the nested value reports a group of two or
+    // more errors (an unknown name and a missing one) next to errors of the flatten member itself
+    for req_mid in [false, true] {
+        let mut fl = Field::new("inner", Ty::Struct(1));
+        fl.flatten = true;
+        let mut mid = vec![Field::new("parent", Ty::Struct(2)), opt("example")];
+        if req_mid {
+            mid.push(Field::new("needed", Ty::U32));
+        }
+        out.push(Program {
+            decls: vec![st(vec![opt("blast"), opt("firsts"), fl]), st(mid), st(vec![opt("first"), Field::new("last", Ty::U32), Field::new("least", Ty::U32)])],
+            root: 0,
+            family: format!("sugg nested-in-flatten required{}", if req_mid { "+mid" } else { "" }),
+        });
+    }
     // P6: skip and flatten in the same receiver
     {
         let mut sk = Field::new("amet", Ty::U32);
